@@ -147,6 +147,8 @@ pub enum BadGlyphKind {
     BadDeltas(DeltaError),
     /// The glyph uses itself as a component, directly or through other glyphs
     ComponentCycle(Vec<GlyphName>),
+    /// A coordinate, advance or transform is NaN or infinite
+    NonFiniteValue(&'static str),
     FrontendSpecific(String),
 }
 
@@ -292,6 +294,7 @@ impl std::fmt::Display for BadGlyphKind {
                 let path = path.iter().map(|n| n.as_str()).collect::<Vec<_>>();
                 write!(f, "component cycle: {}", path.join(" -> "))
             }
+            BadGlyphKind::NonFiniteValue(what) => write!(f, "{what} is not a finite number"),
             BadGlyphKind::FrontendSpecific(e) => write!(f, "{}", e),
         }
     }
